@@ -268,6 +268,7 @@ func runFp(c *Ctx) {
 			}
 		}
 	} else {
+		fs = append(fs, deepTailForms(c.Rng.Fork(), c.N)...)
 		fs = append(fs, genTailRec(c.Rng, c.N)...)
 	}
 	// the canonical case (replay text, key of KNOWN_FINDINGS) names the smallest loop count at which a
@@ -298,6 +299,64 @@ func runFp(c *Ctx) {
 			}
 		}
 	}
+}
+
+// nestTail wraps the tail expression e in one more construct that keeps it in tail position
+// (no choice point pending when e runs): k = 0 then-branch, 1 else-branch, 2 elif branch, 3 right side
+// of `//`, 4 right branch of a comma, 5 body of a binding.  v makes the bound variable names distinct.
+func nestTail(k, v int, e string) string {
+	switch k {
+	case 0:
+		return "if . >= 0 then " + e + " else . end"
+	case 1:
+		return "if . < 0 then . else " + e + " end"
+	case 2:
+		return "if . < 0 then . elif . >= 0 then " + e + " else . end"
+	case 3:
+		return "(null // (" + e + "))"
+	case 4:
+		return "(empty, (" + e + "))"
+	default:
+		return fmt.Sprintf(". as $v%d | %s", v, e)
+	}
+}
+
+var nestNames = []string{"then", "else", "elif", "alt", "comma", "bind"}
+
+// deepTailForms: the tail call under 1..8 nested then-branches, else-branches, elif chains, `//` right
+// sides, comma right branches, bindings (each uniform nesting), and seeded mixed nestings
+func deepTailForms(r *Rng, nmixed int) []form {
+	var fs []form
+	mk := func(kinds []int) string {
+		e := ".+1 | f"
+		for i := len(kinds) - 1; i >= 0; i-- {
+			e = nestTail(kinds[i], i, e)
+		}
+		return "def f: if . < $n then " + e + " else . end; 0 | f"
+	}
+	for k := 0; k < 6; k++ {
+		for d := 1; d <= 8; d++ {
+			kinds := make([]int, d)
+			for i := range kinds {
+				kinds[i] = k
+			}
+			fs = append(fs, form{fmt.Sprintf("deep-%s-%d", nestNames[k], d), mk(kinds), "all"})
+		}
+	}
+	for i := 0; i < nmixed; i++ {
+		d := 2 + r.Intn(7)
+		kinds := make([]int, d)
+		for j := range kinds {
+			kinds[j] = r.Intn(6)
+		}
+		src := mk(kinds)
+		if r.Chance(1, 3) { // inside another definition
+			src = strings.Replace(src, "def f:", "def g: def f:", 1)
+			src = strings.Replace(src, "; 0 | f", "; f; 0 | g", 1)
+		}
+		fs = append(fs, form{"deep-mixed", src, "all"})
+	}
+	return fs
 }
 
 // generated tail-recursive parameterless definitions: a guard, some pre-work, the self call in tail
